@@ -79,6 +79,17 @@ type prefixedConn struct {
 	off    int
 }
 
+// CloseWrite passes a write-shutdown through to the wrapped connection. Without
+// it the relay's WriteCloser assertion fails on this wrapper and the peer's end
+// of stream reaches the client only when the half-close timeout tears the
+// connection down.
+func (c *prefixedConn) CloseWrite() error {
+	if wc, ok := c.Conn.(WriteCloser); ok {
+		return wc.CloseWrite()
+	}
+	return nil
+}
+
 func (c *prefixedConn) TakeRelaySegments() [][]byte {
 	prefix := c.TakeRelayPrefix()
 	if len(prefix) == 0 {
